@@ -136,7 +136,7 @@ def write_evidence(ctx, mod, nviol, extra_assumptions=()):
             "obligations": obligations,
             "discharged": discharged,
             "checker_cmd": "cd lean && lake build CobaldVerif.Props.%s && lake env lean <#print axioms of every theorem in Props/%s.lean>; "
-            "lake env lean --run Driver.lean < cases (correspondence against /repo/src)" % (ctx.pid, ctx.pid),
+            "lean/.lake/build/bin/driver < cases (the compiled Driver.lean; `lake env lean --run Driver.lean` with VERIF_INTERPRET=1) (correspondence against /repo/src)" % (ctx.pid, ctx.pid),
             "trusted_base": [
                 "Lean 4.33.0 kernel",
                 "axioms found by #print axioms: %s" % (", ".join(axioms) or "none"),
